@@ -142,10 +142,12 @@ where
     /// Get the permissions for the given address.
     pub fn permissions(&self, address: u64) -> Option<MemoryPermissions> {
         let page_address = address & PAGE_MASK;
+        // A page which exists only because something was stored in it has no
+        // permissions of its own, and must not hide the backing's permissions.
         self.pages
             .get(&page_address)
-            .map(|page| page.permissions().cloned())
-            .unwrap_or_else(|| {
+            .and_then(|page| page.permissions().cloned())
+            .or_else(|| {
                 self.backing()
                     .and_then(|backing| backing.permissions(address))
             })
